@@ -27,7 +27,7 @@ MCPlaceCases == { [cdims |-> MCCDims, tmpl |-> t, poses |-> PoseSeq(n, k)] :
                      t \in {Tmpl8, Tmpl6}, n \in {1, 2, 3, 5, 8, 13, 20}, k \in 0..2 }
                 \cup { [cdims |-> MCCDims, tmpl |-> Tmpl8, poses |-> << [pos |-> <<6, 5, 4>>, R |-> r, colour |-> 3] >>] : r \in All }
 MCPlaceCasesBig == MCPlaceCases \cup { [cdims |-> cd, tmpl |-> t, poses |-> PoseSeq(n, k)] :
-                     cd \in {MCCDims, <<9, 14, 11>>}, t \in {Tmpl8, Tmpl6}, n \in 1..20, k \in 3..8 }
+                     cd \in {MCCDims, <<9, 14, 11>>}, t \in {Tmpl8, Tmpl6}, n \in 1..20, k \in 3..6 }
 
 \* ---- windowing: per axis fully outside below / straddling / inside / covering / straddling above / fully outside above
 MCVDims == <<4, 5, 6>>
